@@ -654,7 +654,7 @@ class FixedArray
             .def(boost::python::init<const FixedArray<T> &>("construct an array with the same values as the given array"))
             .def(boost::python::init<const T &,size_t>("construct an array of the specified length initialized to the specified default value"))
             .def("__getitem__", &FixedArray<T>::getslice)
-            .def("__getitem__", &FixedArray<T>::getslice_mask<FixedArray<int> > )
+            .def("__getitem__", &FixedArray<T>::getslice_mask<FixedArray<int> >, boost::python::with_custodian_and_ward_postcall<0,1>())
             .def("__getitem__",    const_getobject,
                  selectable_postcall_policy_from_tuple<
                      boost::python::with_custodian_and_ward_postcall<0,1>,
